@@ -1040,6 +1040,27 @@ func (in *Inst[M, A, V, E]) Alterations(r *lib.Rng, hw *Wire) []Alt {
 				return b
 			}
 		})
+		// cut down to nothing, to one octet, to half: for one aggregator and
+		// for all of them
+		for _, keep := range []int{0, 1, 16} {
+			keep := keep
+			add(fmt.Sprintf("prep-message:cut-to-%d-octets", keep), true, one, func(w *Wire) {
+				w.PrepMsgEdit = func(j int, b []byte) []byte {
+					if j == one && len(b) > keep {
+						return append([]byte{}, b[:keep]...)
+					}
+					return b
+				}
+			})
+			add(fmt.Sprintf("prep-message:all-aggregators:cut-to-%d-octets", keep), true, -1, func(w *Wire) {
+				w.PrepMsgEdit = func(j int, b []byte) []byte {
+					if len(b) > keep {
+						return append([]byte{}, b[:keep]...)
+					}
+					return b
+				}
+			})
+		}
 		add("prep-message:other-report", true, -1, func(w *Wire) {
 			other := r.Bytes(32)
 			w.PrepMsgEdit = func(j int, b []byte) []byte { return lib.Clone(other) }
